@@ -13,6 +13,8 @@ pub const C_INV_SQRT6_UP: f64 = 0.40824829046386396_f64;   // fl(1/sqrt(6)) + 16
 pub const C_T_UP: f64 = 0.7297276562269668_f64;                  // fl(T) + 4 ulp
 pub const C_INV_SQRT6_2: f64 = 0.4082482904638632_f64;    // fl(1/sqrt(6)) + 2 ulp
 pub const C_A6: f64 = 1.1502619915109302_f64;              // fl(T/2 + pi/4) - 6 ulp
+pub const C_A0: f64 = 1.1502619915109316_f64;              // fl(fl(next(T) / 2) + pi/4): smallest argument of cos evaluated by proj for |lat| > T
+pub const C_INV_SQRT6: f64 = 0.4082482904638631_f64;       // fl(1/sqrt(6)); SQRT6 * this rounds to 1.0; true cos(C_A0) is 2.1 ulp below it
 pub const C_TINY: f64 = 2.7755575615628914e-17;            // 2^-55 < cos(fl(pi/2)) = 6.1e-17
 
 const MEMO: usize = 3;
@@ -59,6 +61,7 @@ pub fn cos_stub(x: f64) -> f64 {
   kani::assume(c >= -1.0 && c <= 1.0);
   if ax <= C_HALF_PI { kani::assume(c >= C_TINY); }
   if ax >= C_A && ax <= C_HALF_PI { kani::assume(c <= C_INV_SQRT6_UP); }
+  if ax >= C_A0 && ax <= C_HALF_PI { kani::assume(c <= C_INV_SQRT6); }
   unsafe { memo_put(&raw mut COS_MEMO, ax.to_bits(), c.to_bits()); }
   c
 }
